@@ -4,7 +4,7 @@ use clap::Parser;
 use serde::{Deserialize, Serialize};
 use tokio::{
     io::{AsyncReadExt, AsyncWriteExt},
-    net::{TcpListener, UnixStream},
+    net::{TcpListener, TcpStream, UnixStream},
 };
 
 use super::format::format_response;
@@ -83,52 +83,72 @@ pub async fn main() -> Result<(), Box<dyn std::error::Error>> {
     loop {
         let (mut tcp_stream, _) = listener.accept().await?;
 
-        // Wait until a request was sent, dropping the bytes read when this scope ends
-        // to ensure we don't accidentally use them afterwards
+        // Whatever a single client does - close early, reset the connection, send
+        // garbage - only ends its own connection, never the exporter.
+        if let Err(e) = handle_connection(&mut tcp_stream, &mut buf, &observation_socket_path).await
         {
-            // Receive all data until the header was fully received, or until max buf size
-            let mut buf = [0u8; 2048];
-            let mut bytes_read = 0;
-            loop {
-                bytes_read += tcp_stream.read(&mut buf[bytes_read..]).await?;
-
-                // The headers end with two CRLFs in a row
-                if buf[0..bytes_read].windows(4).any(|w| w == b"\r\n\r\n") {
-                    break;
-                }
-
-                // Headers should easily fit within the buffer
-                // If we have not found the end yet, we are not going to
-                if bytes_read >= buf.len() {
-                    tracing::warn!("Metrics connection request too long");
-                    continue;
-                }
-            }
-
-            // We only respond to GET requests
-            if !buf[0..bytes_read].starts_with(b"GET ") {
-                tracing::warn!("Metrics connection wasn't get");
-                continue;
-            }
-        }
-
-        buf.clear();
-        match handler(&mut buf, &observation_socket_path).await {
-            Ok(()) => {
-                tcp_stream.write_all(buf.as_bytes()).await?;
-            }
-            Err(e) => {
-                log::warn!("error: {e}");
-                const ERROR_REPONSE: &str = concat!(
-                    "HTTP/1.1 500 Internal Server Error\r\n",
-                    "content-type: text/plain\r\n",
-                    "content-length: 0\r\n\r\n",
-                );
-
-                tcp_stream.write_all(ERROR_REPONSE.as_bytes()).await?;
-            }
+            tracing::warn!("error on metrics connection: {e}");
         }
     }
+}
+
+async fn handle_connection(
+    tcp_stream: &mut TcpStream,
+    buf: &mut String,
+    observation_socket_path: &Path,
+) -> std::io::Result<()> {
+    // Wait until a request was sent, dropping the bytes read when this scope ends
+    // to ensure we don't accidentally use them afterwards
+    {
+        // Receive all data until the header was fully received, or until max buf size
+        let mut request = [0u8; 2048];
+        let mut bytes_read = 0;
+        loop {
+            // Headers should easily fit within the buffer
+            // If we have not found the end yet, we are not going to
+            if bytes_read >= request.len() {
+                tracing::warn!("Metrics connection request too long");
+                return Ok(());
+            }
+
+            let n = tcp_stream.read(&mut request[bytes_read..]).await?;
+            if n == 0 {
+                tracing::warn!("Metrics connection closed before the request was complete");
+                return Ok(());
+            }
+            bytes_read += n;
+
+            // The headers end with two CRLFs in a row
+            if request[0..bytes_read].windows(4).any(|w| w == b"\r\n\r\n") {
+                break;
+            }
+        }
+
+        // We only respond to GET requests
+        if !request[0..bytes_read].starts_with(b"GET ") {
+            tracing::warn!("Metrics connection wasn't get");
+            return Ok(());
+        }
+    }
+
+    buf.clear();
+    match handler(buf, observation_socket_path).await {
+        Ok(()) => {
+            tcp_stream.write_all(buf.as_bytes()).await?;
+        }
+        Err(e) => {
+            log::warn!("error: {e}");
+            const ERROR_REPONSE: &str = concat!(
+                "HTTP/1.1 500 Internal Server Error\r\n",
+                "content-type: text/plain\r\n",
+                "content-length: 0\r\n\r\n",
+            );
+
+            tcp_stream.write_all(ERROR_REPONSE.as_bytes()).await?;
+        }
+    }
+
+    Ok(())
 }
 
 pub async fn read_json<'a, T>(
